@@ -205,7 +205,9 @@ def one(seed, i, res):
             ef = {k: v for k, v in (first["end"] or {}).items() if rng.random() < 0.6 and v != {"__anytext__": True}}
             variants = [("true-subset", ok_succeeded, sf, ef, True), ("wrong-outcome", not ok_succeeded, sf, ef, False),
                         ("wrong-start-value", ok_succeeded, dict(sf, nid=-5), ef, False),
-                        ("missing-end-key", ok_succeeded, sf, dict(ef, no_such_key=1), False)]
+                        ("missing-end-key", ok_succeeded, sf, dict(ef, no_such_key=1), False),
+                        ("missing-end-key-none", ok_succeeded, sf, dict(ef, no_such_key=None), False),
+                        ("missing-start-key-none", ok_succeeded, dict(sf, no_such_key=None), ef, False)]
             # a later action of the same type that would satisfy the wrong expectation must not rescue the assertion
             for label, succ, s_, e_, expect_ok in variants:
                 try:
@@ -239,7 +241,7 @@ def one(seed, i, res):
             first = want[0]
             sub = {k: v for k, v in first["fields"].items() if rng.random() < 0.6}
             for label, f_, expect_ok in (("true-subset", sub, True), ("none", None, True), ("wrong-value", dict(sub, nid=-1), False),
-                                         ("missing-key", dict(sub, no_such_key=0), False)):
+                                         ("missing-key", dict(sub, no_such_key=0), False), ("missing-key-none", dict(sub, no_such_key=None), False)):
                 try:
                     r = assertHasMessage(tc, logger, T, f_)
                     passed = True
